@@ -30,7 +30,14 @@ def one(job):
     try:
         rc, out = sh(["git", "revert", "--no-commit", commit], cwd=wt)
         if rc:
-            return [(commit, e["defect"], e["property"], e["rule"], "conflict", "") for e in entries]
+            # later commits touched neighbouring lines: undo the repair with a fuzzy reverse patch instead
+            sh(["git", "revert", "--abort"], cwd=wt)
+            sh(["git", "checkout", "-q", "--", "."], cwd=wt)
+            import subprocess
+            diff = subprocess.run(["git", "show", commit, "--", "rockit"], cwd=wt, capture_output=True, text=True).stdout
+            pr = subprocess.run(["patch", "-R", "-p1", "-F3", "--no-backup-if-mismatch"], cwd=wt, input=diff, capture_output=True, text=True)
+            if pr.returncode:
+                return [(commit, e["defect"], e["property"], e["rule"], "conflict", "") for e in entries]
         rc, out = sh(["/venv/bin/python", "-m", "compileall", "-q", "rockit"], cwd=wt)
         if rc:
             return [(commit, e["defect"], e["property"], e["rule"], "does-not-compile", out[-200:]) for e in entries]
